@@ -171,3 +171,13 @@ claim("C19",
       "Not decided: general index/slice upper bounds and overflow-corrupted bounds (needs relational interval analysis, e.g. SUBSTR with a huge length), hangs other than the lock retry, rectangularity of loaded tables (value-level), lib/terminal's completer indices, R-ERR-8 (nil in type-switch default: not built). AST-typed assertions are fixed by the grammar. Interval assumptions: lengths < 2^47, counters < 2^50.",
       "SSA branch facts, interprocedural type-set fixpoint, demand-driven interval evaluation, must-pass path rules",
       "DESIGN.md §3 C19")
+
+NA.pop("C03", None)
+claim("C03",
+      "Relational semantics over all tables and query shapes is value-level and NOT decided. Decided are the finite or structural clauses it rests on: "
+      "(R-REL-1) every ternary truth test of lib/query separates exactly the documented classes — row filters, join conditions, IF/CASE/WHILE act on TRUE only (a row is kept iff its condition is TRUE), AND/OR/BETWEEN/ANY/ALL short-circuit as documented; an unlisted test is reported; "
+      "(R-REL-4) the join dispatch table over join type × direction, the LEFT default of OuterJoin and the cross-join fallback of InnerJoin; (R-REL-5) set operators dispatched under their own token with all = NOT set.All.IsEmpty() in both sibling switches; "
+      "(R-REL-3) the recursive CTE call is guarded by the recursion limit and by the no-new-rows exit; (R-LIM-1) pipeline stage order load ≺ where ≺ group ≺ having ≺ select ≺ order ≺ offset ≺ limit; (R-PAR-1) parallel result slots are index-addressed, so a single source keeps its row order.",
+      "Not decided (value-level): which rows a join matches, NULL padding of outer joins, the column merge of USING/NATURAL, projection and field resolution, the contents produced by a recursive CTE.",
+      "branch-condition classification against a frozen table, finite-domain abstract interpretation of the dispatch, CFG path rules",
+      "DESIGN.md §3 C03")
